@@ -137,6 +137,14 @@ impl From<IllFormedError> for Error {
 //@end
 pub uninterp spec fn spec_decode<'b>(d: Decoder, bytes: Seq<u8>) -> core::result::Result<Cow<'b, str>, EncodingError>;
 impl Decoder {
+//@extract encoding::Decoder::utf8 | src/encoding.rs :: impl Decoder :: fn utf8 | serves=C09
+ pub fn utf8() -> (r: Self) {
+        Decoder {
+        }
+    }
+//@end
+}
+impl Decoder {
     #[verifier::external_body]
     pub fn decode<'b>(&self, bytes: &'b [u8]) -> (r: core::result::Result<Cow<'b, str>, EncodingError>)
         ensures r == spec_decode::<'b>(*self, bytes@)
